@@ -33,7 +33,7 @@ def plan(tier):
     if tier == "quick":
         base.update({"ncases": 320, "min_nontrivial": 60})
     else:
-        base.update({"ncases": 5000, "min_nontrivial": 1200, "required_counters": {"oracle": 40000, "isometry_checks": 20000}})
+        base.update({"ncases": 40000, "min_nontrivial": 9000, "required_counters": {"oracle": 300000, "isometry_checks": 150000}})
     return base
 
 
